@@ -2,6 +2,7 @@ import PpciVerif.Proofs.RegexInst
 import PpciVerif.Proofs.RegexParse
 import PpciVerif.Proofs.RegexMeaning
 import PpciVerif.Model.RegexLegacy
+import PpciVerif.Proofs.RegexDiverge
 /-!
 # C31 — regular-expression automata accept exactly the expression's language
 
@@ -150,8 +151,16 @@ example : (compileVec 20 [(0, .cat a b), (1, concatenate (symbolSet [(97, 98)]) 
 
 ### open finding: `compile` does not terminate without ACI-normalisation (`a*a*`)
 Each derivative by `a` wraps the previous state into one more `LogicalOr(…, a*)`, all states are
-different, the work list never empties.  (Bounded witness; `(aa+)*` even doubles in size each step.) -/
-example : compile 30 (.cat (.star a) (.star a)) = .error .Fuel := by decide +kernel
+different, the work list never empties (proved for every amount of fuel in `Proofs.RegexDiverge`;
+`(aa+)*` even doubles in size at each step). -/
+theorem compile_not_total : ¬ compile_total_full := by
+  intro h
+  obtain ⟨fuel, d, hd⟩ := h Proofs.RegexDiverge.root ⟨WF_symbol 97, WF_symbol 97⟩
+  rw [Proofs.RegexDiverge.compile_diverges fuel] at hd
+  cases hd
+/-- for EVERY fuel: `compile` does not return on `a*a*` -/
+example (fuel : Nat) : compile fuel (.cat (.star a) (.star a)) = .error .Fuel :=
+  Proofs.RegexDiverge.compile_diverges fuel
 example : derivative (.cat (.star a) (.star a)) 97 = .or (.cat (.star a) (.star a)) (.star a) := by decide +kernel
 example : derivative (.or (.cat (.star a) (.star a)) (.star a)) 97
     = .or (.or (.cat (.star a) (.star a)) (.star a)) (.star a) := by decide +kernel
